@@ -32,6 +32,7 @@ type Verifier struct {
 	// per-exec scratch (reset by newExec)
 	compSorts  map[string]string
 	seedComps  map[string]string
+	acqCache   map[*ssa.Function]map[string]bool
 	allComps   map[string]bool // every component registered by any function of this run (for the frame-prefix sanity report)
 	globalSeen map[*Script]map[string]bool
 	typesSeen  map[*Script]map[string]types.Type
@@ -637,7 +638,7 @@ func (ex *Exec) applyModifies(st *State, c *Contract, env *Env) {
 		if strings.HasPrefix(it.comp, "*-") {
 			pfx := strings.Split(strings.TrimPrefix(it.comp, "*-"), "|")
 			for _, k := range sortedKeys(ex.V.compSorts) {
-				if k == compAlloc || strings.HasPrefix(k, "LK:") || strings.HasPrefix(k, "LA:") || strings.HasPrefix(k, "G:") {
+				if k == compAlloc || strings.HasPrefix(k, "LK:") || (strings.HasPrefix(k, "LA:") || strings.HasPrefix(k, "LH:")) || strings.HasPrefix(k, "G:") {
 					continue
 				}
 				skip := false
@@ -686,7 +687,7 @@ func (V *Verifier) newExec(fn *ssa.Function) *Exec {
 	for k, v := range V.seedComps {
 		V.compSorts[k] = v
 	}
-	ex := &Exec{V: V, sc: newScript(), root: fn, notes: map[string]bool{}, counts: map[string]int{}, lkRequired: map[string]bool{}, lkInit: map[string]bool{}}
+	ex := &Exec{V: V, sc: newScript(), root: fn, notes: map[string]bool{}, counts: map[string]int{}, lkRequired: map[string]bool{}, lkInit: map[string]bool{}, lhInit: map[string]bool{}}
 	ex.sc.axiom(app(SBool, ">", ex.sc.declare("pre:"+compAlloc, SInt), intLit(0)))
 	ex.regComp(compAlloc, SInt)
 	ex.regComp("G:clock", SInt)
@@ -1043,7 +1044,7 @@ func (ex *Exec) frameObligations(f *frame, c *Contract) {
 	}
 	n0 := ex.sc.declare("pre:"+compAlloc, SInt)
 	for _, k := range sortedKeys(f.exit.heap) {
-		if k == compAlloc || k == "G:clock" || strings.HasPrefix(k, "LK:") || strings.HasPrefix(k, "LA:") || allowedWhole[k] {
+		if k == compAlloc || k == "G:clock" || strings.HasPrefix(k, "LK:") || (strings.HasPrefix(k, "LA:") || strings.HasPrefix(k, "LH:")) || allowedWhole[k] {
 			continue
 		}
 		sort := ex.compSorts(k)
@@ -1580,7 +1581,7 @@ func (V *Verifier) contractComps(ct *Contract) (comps map[string]bool, star bool
 		case strings.HasPrefix(it, "allbut("):
 			pfx := strings.Split(strings.TrimSuffix(strings.TrimPrefix(it, "allbut("), ")"), "|")
 			for c := range V.compSorts {
-				if c == compAlloc || strings.HasPrefix(c, "LK:") || strings.HasPrefix(c, "LA:") || strings.HasPrefix(c, "G:") {
+				if c == compAlloc || strings.HasPrefix(c, "LK:") || (strings.HasPrefix(c, "LA:") || strings.HasPrefix(c, "LH:")) || strings.HasPrefix(c, "G:") {
 					continue
 				}
 				skip := false
@@ -1762,7 +1763,7 @@ func (V *Verifier) expandMods(d map[string]bool) []string {
 			}
 		case k == "LK:*":
 			for c := range V.compSorts {
-				if strings.HasPrefix(c, "LK:") || strings.HasPrefix(c, "LA:") {
+				if strings.HasPrefix(c, "LK:") || (strings.HasPrefix(c, "LA:") || strings.HasPrefix(c, "LH:")) {
 					out[c] = true
 				}
 			}
@@ -1782,7 +1783,7 @@ func (V *Verifier) expandMods(d map[string]bool) []string {
 	}
 	if star {
 		for c := range V.compSorts {
-			if c == compAlloc || strings.HasPrefix(c, "LK:") || strings.HasPrefix(c, "LA:") || strings.HasPrefix(c, "G:") {
+			if c == compAlloc || strings.HasPrefix(c, "LK:") || (strings.HasPrefix(c, "LA:") || strings.HasPrefix(c, "LH:")) || strings.HasPrefix(c, "G:") {
 				continue
 			}
 			if !out[c] {
@@ -1793,4 +1794,100 @@ func (V *Verifier) expandMods(d map[string]bool) []string {
 	}
 	sort.Strings(res)
 	return res
+}
+
+// staticLockKind: the kind ("pkg.Type.path") of the mutex whose address v is, when it is a field of a struct.
+func staticLockKind(v ssa.Value) string {
+	path := ""
+	cur := v
+	for {
+		fa, ok := cur.(*ssa.FieldAddr)
+		if !ok {
+			return ""
+		}
+		pt, ok := fa.X.Type().Underlying().(*types.Pointer)
+		if !ok {
+			return ""
+		}
+		st, ok := pt.Elem().Underlying().(*types.Struct)
+		if !ok {
+			return ""
+		}
+		name := st.Field(fa.Field).Name()
+		if path == "" {
+			path = name
+		} else {
+			path = name + "." + path
+		}
+		if inner, ok := fa.X.(*ssa.FieldAddr); ok {
+			cur = inner
+			continue
+		}
+		return namedKey(pt.Elem()) + "." + path
+	}
+}
+
+// acquires: the kinds of mutex a function may lock, directly or through anything it calls (static callees, implementations
+// of interface methods, address-taken functions of a matching signature for dynamic calls). Used for the declared lock order.
+func (V *Verifier) acquires(fn *ssa.Function) map[string]bool {
+	if V.acqCache == nil {
+		V.acqCache = map[*ssa.Function]map[string]bool{}
+		direct := map[*ssa.Function]map[string]bool{}
+		callees := map[*ssa.Function][]*ssa.Function{}
+		for _, g := range V.P.All {
+			d := map[string]bool{}
+			direct[g] = d
+			if g.Blocks == nil {
+				continue
+			}
+			for _, b := range g.Blocks {
+				for _, ins := range b.Instrs {
+					c, ok := ins.(ssa.CallInstruction)
+					if !ok {
+						continue
+					}
+					if _, isGo := ins.(*ssa.Go); isGo {
+						continue // another goroutine
+					}
+					cc := c.Common()
+					if callee := cc.StaticCallee(); callee != nil {
+						switch callee.String() {
+						case "(*sync.Mutex).Lock", "(*sync.RWMutex).Lock", "(*sync.RWMutex).RLock":
+							if k := staticLockKind(cc.Args[0]); k != "" {
+								d[k] = true
+							}
+							continue
+						}
+						callees[g] = append(callees[g], callee)
+						if mc, ok := cc.Value.(*ssa.MakeClosure); ok {
+							callees[g] = append(callees[g], mc.Fn.(*ssa.Function))
+						}
+					} else if cc.IsInvoke() {
+						callees[g] = append(callees[g], V.implementations(cc)...)
+					} else {
+						for h := range V.addrTaken {
+							if types.Identical(stripRecv(h.Signature), stripRecv(cc.Signature())) {
+								callees[g] = append(callees[g], h)
+							}
+						}
+					}
+				}
+			}
+		}
+		for changed := true; changed; {
+			changed = false
+			for _, g := range V.P.All {
+				for _, h := range callees[g] {
+					for k := range direct[h] {
+						if !direct[g][k] {
+							direct[g][k] = true
+							changed = true
+						}
+					}
+				}
+			}
+		}
+		V.acqCache = direct
+	}
+	return V.acqCache[fn]
 }
